@@ -18,8 +18,7 @@ FAMILY = ('UNIT: MemoryZone.__init__, current_address setter, MemoryZoneManager.
           'origins, an included file, fills ending at / one past a zone end')
 BOUNDS = {'zone bounds': 'symbolic within the address space +-4 (UNIT) / 0..0x300 (PIPE)', 'fill lengths': '0..6',
           'bitvector_width': '24..80'}
-ASSUMPTIONS = ['zone start >= 0 (negative bounds are outside the claim)',
-               'a cursor may rest one past the zone end as long as no byte is placed there',
+ASSUMPTIONS = [               'a cursor may rest one past the zone end as long as no byte is placed there',
                'an uncaught Python exception counts as a rejection (non-zero exit, no image), not as acceptance']
 
 V = lambda n: ('v', n)      # noqa
@@ -41,7 +40,7 @@ class ZoneUnit(Shape):
             shims.install()
 
     def expected_outcomes(self):
-        return ['rejected'] if self.params.get('name') == 'USED' else ['ok', 'rejected']
+        return ['rejected'] if self.params.get('name') in ('USED', 'GLOBAL') else ['ok', 'rejected']
 
     def run(self, env):
         from bespokeasm.assembler.memory_zone import MemoryZone
@@ -49,11 +48,12 @@ class ZoneUnit(Shape):
         bits = self.params['bits']
         top = (1 << bits) - 1
         what = self.params['what']
-        decl = {'init': [('start', 0, top + 4), ('end', 0, top + 4)],
+        decl = {'init': [('start', -4, top + 4), ('end', -4, top + 4)],
                 'setter': [('start', 0, top + 4), ('end', 0, top), ('value', -4, top + 8)],
                 'create': [('gs', 0, top), ('ge', 0, top), ('start', 0, top + 4), ('end', 0, top + 4)],
-                'manager': [('gs', 0, top), ('ge', 0, top + 4), ('origin', 0, top + 8), ('start', 0, top + 4),
-                            ('end', 0, top + 4)]}[what]
+                'manager': [('gs', 0, top), ('ge', 0, top + 4), ('origin', 0, top + 8), ('start', -4, top + 4),
+                            ('end', 0, top + 4)],
+                'create-default': [('start', 0, top + 4), ('end', 0, top + 4)]}[what]
         v = {n: env.sym(n, lo, hi) for n, lo, hi in decl}
         if what in ('setter',):
             env.assume(env.z('start') <= env.z('end'))
@@ -72,6 +72,11 @@ class ZoneUnit(Shape):
                                                       {'name': 'USED', 'start': v['gs'], 'end': v['ge']}])
                 z = m.create_zone(bits, v['start'], v['end'], self.params.get('name', 'NEW'))
                 return ('ok', [z.start, z.end, z.current_address])
+            if what == 'create-default':
+                # no GLOBAL among the predefined zones: the default GLOBAL still owns its name
+                m = MemoryZoneManager(bits, 0, [])
+                z = m.create_zone(bits, v['start'], v['end'], self.params.get('name', 'NEW'))
+                return ('ok', [z.start, z.end, z.current_address])
             if what == 'manager':
                 m = MemoryZoneManager(bits, v['origin'],
                                       [{'name': 'GLOBAL', 'start': v['gs'], 'end': v['ge']},
@@ -87,13 +92,16 @@ class ZoneUnit(Shape):
         top = E.bvval((1 << bits) - 1)
         what = self.params['what']
         z = env.z
-        valid = lambda s, e: z3.And(s <= e, e <= top)  # noqa
+        valid = lambda s, e: z3.And(E.bvval(0) <= s, s <= e, e <= top)  # noqa
         if what == 'init':
             ok = valid(z('start'), z('end'))
             exp = [z('start'), z('end'), z('start')]
         elif what == 'setter':
             ok = z3.And(z('start') <= z('value'), z('value') <= z('end') + E.bvval(1))
             exp = [z('value')]
+        elif what == 'create-default':
+            ok = valid(z('start'), z('end')) if self.params.get('name') != 'GLOBAL' else z3.BoolVal(False)
+            exp = [z('start'), z('end'), z('start')]
         elif what == 'create':
             ok = z3.And(valid(z('start'), z('end')), z('gs') <= z('start'), z('end') <= z('ge'))
             if self.params.get('name') == 'USED':
@@ -153,6 +161,15 @@ def pipe_shapes(tier):
             ('create_memzone', 'NZ', a, b), ('memzone', 'NZ'), ('data', '.byte', [C(5)])], {},
             expect=('ok', 'rejected') if nm == 'inside' else ('rejected',),
             global_zone=(Sym('gs', 0, 0x40), Sym('ge', 0x20, 0x80)), origin=Sym('o0', 0, 0x80)))
+    # the name GLOBAL is taken whether or not the definition redefines that zone
+    S.append(mk('create-memzone:named-GLOBAL-default', [
+        ('create_memzone', 'GLOBAL', 0x20, 0x2f), ('instr', 'nop', None)], {}, expect=('rejected',), origin=Sym('o0', 0, 0x10)))
+    S.append(mk('create-memzone:named-GLOBAL-redefined', [
+        ('create_memzone', 'GLOBAL', 0x30, 0x3f), ('instr', 'nop', None)], {}, expect=('rejected',),
+        global_zone=(Sym('gs', 0, 0x20), Sym('ge', 0x40, 0x80)), origin=Sym('o0', 0x20, 0x40)))
+    S.append(mk('create-memzone:named-GLOBAL-beside-predefined', [
+        ('create_memzone', 'GLOBAL', 0x30, 0x3f), ('memzone', 'Z'), ('instr', 'nop', None)], {}, expect=('rejected',),
+        zones={'Z': (ZS, ZE)}))
     S.append(mk('create-memzone:duplicate', [
         ('create_memzone', 'NZ', 0x30, 0x3f), ('create_memzone', 'NZ', 0x40, 0x4f), ('instr', 'nop', None)], {},
         expect=('rejected',)))
@@ -236,4 +253,6 @@ def shapes(tier, seed):
         for what in ('init', 'setter', 'create', 'manager'):
             S.append(ZoneUnit(f'unit:{what}:{bits}', bits=bits, what=what))
         S.append(ZoneUnit(f'unit:create-dup:{bits}', bits=bits, what='create', name='USED'))
+        S.append(ZoneUnit(f'unit:create-named-GLOBAL:{bits}', bits=bits, what='create-default', name='GLOBAL'))
+        S.append(ZoneUnit(f'unit:create-beside-default-GLOBAL:{bits}', bits=bits, what='create-default'))
     return S + pipe_shapes(tier) + random_zone_programs(tier, seed)
